@@ -95,9 +95,9 @@ def fc_variants(fc):
     F = np.asfortranarray(C)
     H = np.ascontiguousarray(C.transpose(0, 2, 1, 3).reshape(3 * n0, 3 * n1))      # Hessian layout
     T = H.reshape(n0, 3, n1, 3).transpose(0, 2, 1, 3) * 1.0                          # owns data, permuted strides
-    big = np.full((2 * n0,) + C.shape[1:], 7.25)
-    big[::2] = C
-    V = big[::2]
+    big = np.full((n0, 2 * n1, 3, 3), 7.25)
+    big[:, ::2] = C
+    V = big[:, ::2]                                                                  # strided view (column axis)
     big2 = np.full((n0 + 2,) + C.shape[1:], -3.5)
     big2[1:n0 + 1] = C
     SUB = big2[1:n0 + 1]
